@@ -225,6 +225,10 @@ def _child(world, store, d, op, w_out, on_op=None, start_fd=None):
     """Body of a forked worker: optionally wait for the start signal, run the call, report, die."""
     code = 98
     try:
+        # what multiprocessing's Process._bootstrap does first in a forked worker (the workers of the
+        # documented usage are multiprocessing.Pool processes, not raw forks)
+        from multiprocessing import util as _mpu
+        _mpu._run_after_forkers()
         if start_fd is not None:
             os.read(start_fd, 1)
         if on_op is not None:
